@@ -161,7 +161,7 @@ def cases(tier, seed):
                "topo": rng.choice(("chain", "star", "tree", "same-bytes")), "ncopies": rng.randint(1, 6),
                "while_held": rng.random() < 0.5, "tseed": rng.randrange(2 ** 31)}
     # ---- thread workloads ---------------------------------------------------------
-    k = 320 if tier == "quick" else 12000
+    k = 320 if tier == "quick" else 9000
     for _ in range(k):
         single = rng.random() < 0.7
         yield {"kind": "threads", "token": rng.choice(TOKEN_KINDS),
